@@ -440,12 +440,21 @@ fn local_order(rep: &mut Report, m: Method) {
 
 /// (5b) accepted-step count as a function of the tolerance: exponent ~ 1/q and no faster
 fn step_count_law(rep: &mut Report, m: Method, q: f64) {
-    let probs = vec![(base(Base::Harmonic(1.0)), 40.0), (warp(&base(Base::Logistic(0.7)), Warp::Sin), 12.0)];
-    for (pi, (p, span)) in probs.iter().enumerate() {
+    // (problem, span, scale of the initial state, atol/rtol): the third one is a tiny solution under
+    // pure relative control — the law must not depend on the magnitude of the solution
+    let mut probs = vec![(base(Base::Harmonic(1.0)), 40.0, 1.0, 1.0), (warp(&base(Base::Logistic(0.7)), Warp::Sin), 12.0, 1.0, 1.0), (base(Base::Decay(-0.3)), 30.0, 1e-12, 0.0)];
+    if is_thorough() {
+        probs.push((base(Base::Decay(-0.3)), 30.0, 1e12, 0.0));
+        probs.push((base(Base::Lin3), 12.0, 1.0, 1.0));
+        probs.push((warp(&base(Base::Harmonic(1.0)), Warp::Quad), 6.0, 1.0, 1.0));
+        probs.push((base(Base::Harmonic(1.0)), 40.0, 1e-9, 1e-9));
+    }
+    for (pi, (p, span, scale, afac)) in probs.iter().enumerate() {
         let tols: Vec<f64> = (0..9).map(|i| 1e-3 * 10f64.powf(-(i as f64))).collect();
         let mut counts = vec![];
+        let y0s: Vec<f64> = p.y0.iter().map(|v| v * scale).collect();
         for tol in &tols {
-            let c = Cfg::new(m, 0.0, *span, &p.y0).tol(*tol, *tol);
+            let c = Cfg::new(m, 0.0, *span, &y0s).tol(*tol, *tol * afac);
             let r = run(p, &c);
             rep.evaluations += 1;
             rep.transitions += r.st.n_ode;
